@@ -175,6 +175,111 @@ func vfC03ReceiveUntil(u *udpConn, wantData []byte, wantAddr string, max int) er
 	return fmt.Errorf("canary not among the first %d messages returned by Receive", max+1)
 }
 
+// vfC03ReceiveCollect calls Receive until the canary comes out and returns what came out before it.
+func vfC03ReceiveCollect(u *udpConn, canary []byte, max int) ([][]byte, []string, error) {
+	var datas [][]byte
+	var addrs []string
+	for i := 0; i <= max; i++ {
+		data, addr, err := u.Receive()
+		if err != nil {
+			return datas, addrs, fmt.Errorf("Receive returned %v before the canary", err)
+		}
+		if bytes.Equal(data, canary) {
+			return datas, addrs, nil
+		}
+		datas = append(datas, append([]byte(nil), data...))
+		addrs = append(addrs, addr)
+	}
+	return datas, addrs, fmt.Errorf("canary not among the first %d messages returned by Receive", max+1)
+}
+
+// vfC03ClientAggregate: COMPLETE well-formed fragment sets with large totals (around 4096, 8 KiB,
+// 64 KiB, 255 x 1200/1400) from a hostile server into one session, each followed by a canary
+// datagram and Receive calls until the canary comes out; then a flood that overflows the
+// session's 1024-message channel. push hands one raw datagram to the manager (feed or run()).
+func vfC03ClientAggregate(k *vfKit, r *vfC03Run, entry string, mk func(id string) (u *udpConn, push func(seqID string, d []byte) bool, done func())) {
+	sets := vfC03AggregateSets(k.Rand("aggregate"), k.N(20, 1200))
+	var u *udpConn
+	var push func(string, []byte) bool
+	var done func()
+	for i, set := range sets {
+		id := fmt.Sprintf("agg-%d", i)
+		if r.SkipSeq(id) {
+			continue
+		}
+		if u == nil || i%6 == 0 || k.ReplayCase() != "" {
+			if done != nil {
+				done()
+			}
+			u, push, done = mk(id)
+		}
+		addr := fmt.Sprintf("agg-%d.verif:53", i)
+		parts, whole := vfC03SetPayloads(set, uint32(i))
+		pid := uint16(1 + i%0x6000)
+		for _, f := range set.Order {
+			if push(r.SeqID(id), vfC03Datagram(u.ID, pid, uint8(f), uint8(len(set.Sizes)), addr, parts[f])) {
+				return
+			}
+		}
+		k.Count("ev_aggregate_sets", 1)
+		k.Count("aggregate_bytes", int64(set.Total))
+		canary := []byte(fmt.Sprintf("c03 client canary after aggregate set %d", i))
+		r.Canary(entry, r.SeqID(id), map[string]any{"after": set.Label, "total": set.Total}, func() error {
+			if push(r.SeqID(id), vfC03Datagram(u.ID, 0, 0, 1, "canary.verif:53", canary)) {
+				return errors.New("panicked")
+			}
+			datas, addrs, err := vfC03ReceiveCollect(u, canary, len(set.Order))
+			if err != nil {
+				return err
+			}
+			// a complete set is well-formed input: whatever Receive hands out for it must be the message itself
+			if len(datas) > 0 {
+				k.Count("ev_aggregate_delivered", 1)
+				if len(datas) != 1 || !bytes.Equal(datas[0], whole) || addrs[0] != addr {
+					return fmt.Errorf("complete fragment set %s: Receive handed out %d messages, first %d bytes from %q, want the %d-byte message from %q", set.Label, len(datas), len(datas[0]), addrs[0], len(whole), addr)
+				}
+			}
+			return nil
+		})
+		if r.Dead(entry) {
+			return
+		}
+		if i == 12 {
+			k.Sample(map[string]any{"aggregate_set": set.Label, "fragments": len(set.Sizes), "total_bytes": set.Total, "arrivals": len(set.Order)})
+		}
+	}
+	if done != nil {
+		done()
+	}
+	// more messages than the session's channel holds (udpMessageChanSize), nothing read meanwhile
+	id := "channel-flood"
+	if r.SkipSeq(id) {
+		return
+	}
+	u, push, done = mk(id)
+	n := udpMessageChanSize + 500
+	for j := 0; j < n; j++ {
+		if push(r.SeqID(id), vfC03Datagram(u.ID, 0, 0, 1, "flood.verif:53", []byte(fmt.Sprintf("flood %d", j)))) {
+			return
+		}
+	}
+	k.Count("ev_flood_messages", int64(n))
+	r.Canary(entry, r.SeqID(id), map[string]any{"queued": n}, func() error {
+		for j := 0; j < udpMessageChanSize; j++ { // whole messages: one per call
+			data, _, err := u.Receive()
+			if err != nil || string(data) != fmt.Sprintf("flood %d", j) {
+				return fmt.Errorf("message %d of the flood: %q err=%v", j, data, err)
+			}
+		}
+		canary := []byte("c03 client canary after the channel flood")
+		if push(r.SeqID(id), vfC03Datagram(u.ID, 0, 0, 1, "canary.verif:53", canary)) {
+			return errors.New("panicked")
+		}
+		return vfC03ReceiveUntil(u, canary, "canary.verif:53", 0)
+	})
+	done()
+}
+
 func TestVerifC03ClientFeed(t *testing.T) {
 	k := vfNewKit(t, "C03", "cli-feed")
 	defer k.Finish()
@@ -260,6 +365,24 @@ func TestVerifC03ClientFeed(t *testing.T) {
 			k.Sample(map[string]any{"sequence": id, "datagrams": steps})
 		}
 	}
+
+	vfC03ClientAggregate(k, r, entry, func(id string) (*udpConn, func(string, []byte) bool, func()) {
+		o := vfC03NewIO()
+		sm := newUDPSessionManager(o)
+		r.NewObject("client udpSessionManager, aggregate workload from " + id)
+		hc, err := sm.NewUDP()
+		if err != nil {
+			t.Fatalf("harness: NewUDP: %v", err)
+		}
+		push := func(seqID string, d []byte) bool {
+			return r.DoObj(entry, seqID, d, func(b []byte) {
+				if msg, err := protocol.ParseUDPMessage(b); err == nil {
+					sm.feed(msg)
+				}
+			})
+		}
+		return hc.(*udpConn), push, o.Close
+	})
 }
 
 func TestVerifC03ClientRun(t *testing.T) {
@@ -327,6 +450,31 @@ func TestVerifC03ClientRun(t *testing.T) {
 			k.Sample(map[string]any{"sequence": id, "raw_datagrams": steps})
 		}
 	}
+
+	vfC03ClientAggregate(k, r, entry, func(id string) (*udpConn, func(string, []byte) bool, func()) {
+		o := vfC03NewIO()
+		sm := newUDPSessionManager(o)
+		r.NewObject("client udpSessionManager.run, aggregate workload from " + id)
+		<-o.entered
+		hc, err := sm.NewUDP()
+		if err != nil {
+			t.Fatalf("harness: NewUDP: %v", err)
+		}
+		push := func(seqID string, d []byte) bool {
+			if r.Dead(entry) {
+				return true
+			}
+			r.Log(entry, d, false)
+			k.Eval()
+			k.Count("ev_inputs", 1)
+			k.Count("in:"+entry, 1)
+			k.Nontrivial(entry + "|" + string(d))
+			o.rx <- vfExact(d)
+			<-o.entered
+			return false
+		}
+		return hc.(*udpConn), push, o.Close
+	})
 }
 
 func vfC03SendCases(rng *rand.Rand, nRandom int) [][3]int {
